@@ -486,7 +486,7 @@ package graph
 //@     heapKept() && g != nil && g != o && wf(g) && fresh(g) && fresh(g.hash) && fresh(g.adjacencyOut) && fresh(g.adjacencyIn)
 //@     && forall(k, any, imp(has(g.hash, k), fresh(g.adjacencyOut[k]) && fresh(g.adjacencyIn[k])))
 //@     && forall(k, any, has(g.hash, k) == has(o.hash, k) && g.hash[k] == o.hash[k])
-//@     && soff(L) == 0 && soff(S) == 0
+//@     && soff(L) == 0 && soff(S) == 0 && fresh(L) && fresh(S) && sref(L) != sref(S)
 //@     && forall(i, int, imp(0 <= i && i < len(L), has(o.hash, hc(L[i])) && L[i] == o.hash[hc(L[i])] && kpos[hc(L[i])] == i))
 //@     && forall(a, any, b, any, imp(edge(o, a, b) && inL(L, b), inL(L, a) && kpos[a] < kpos[b]))
 //@     && forall(s, int, imp(0 <= s && s < len(S), has(o.hash, S[s]) && spos[S[s]] == s && !inL(L, S[s]) && forall(a, any, !edge(g, a, S[s]))))
@@ -510,7 +510,7 @@ package graph
 //@   loop 1 invariant forall(k, any, imp(has(g.hash, k), fresh(g.adjacencyOut[k]) && fresh(g.adjacencyIn[k])))
 //@   loop 1 invariant forall(k, any, has(g.hash, k) == has(old(g).hash, k) && g.hash[k] == old(g).hash[k])
 //@   loop 1 invariant forall(a, any, b, any, edge(g, a, b) == edge(old(g), a, b))
-//@   loop 1 invariant len(L) == 0 && soff(L) == 0 && soff(S) == 0
+//@   loop 1 invariant len(L) == 0 && soff(L) == 0 && soff(S) == 0 && fresh(L) && fresh(S) && sref(L) != sref(S)
 //@   loop 1 invariant forall(s, int, imp(0 <= s && s < len(S), has(old(g).hash, S[s]) && spos[S[s]] == s && in(S[s], seen1) && forall(a, any, !edge(g, a, S[s]))))
 //@   loop 1 invariant forall(k, any, imp(in(k, seen1), has(g.hash, k) && (forall(a, any, !edge(g, a, k)) == inS(S, k))))
 //@   loop 2 invariant kahnBase(g, old(g), L, S)
@@ -520,7 +520,7 @@ package graph
 //@   loop 3 invariant heapKept() && g != nil && g != old(g) && wf(g) && fresh(g) && fresh(g.hash) && fresh(g.adjacencyOut) && fresh(g.adjacencyIn)
 //@   loop 3 invariant forall(k, any, imp(has(g.hash, k), fresh(g.adjacencyOut[k]) && fresh(g.adjacencyIn[k])))
 //@   loop 3 invariant forall(k, any, has(g.hash, k) == has(old(g).hash, k) && g.hash[k] == old(g).hash[k])
-//@   loop 3 invariant soff(L) == 0 && soff(S) == 0
+//@   loop 3 invariant soff(L) == 0 && soff(S) == 0 && fresh(L) && fresh(S) && sref(L) != sref(S)
 //@   loop 3 invariant forall(i, int, imp(0 <= i && i < len(L), has(old(g).hash, hc(L[i])) && L[i] == old(g).hash[hc(L[i])] && kpos[hc(L[i])] == i))
 //@   loop 3 invariant forall(a, any, b, any, imp(edge(old(g), a, b) && inL(L, b), inL(L, a) && kpos[a] < kpos[b]))
 //@   loop 3 invariant forall(s, int, imp(0 <= s && s < len(S), has(old(g).hash, S[s]) && spos[S[s]] == s && !inL(L, S[s]) && forall(a, any, !edge(g, a, S[s]))))
@@ -613,7 +613,7 @@ package graph
 //@   ensures  [non-nil] forall(i, int, imp(0 <= i && i < len(result), result[i] != nil))
 //@   ensures  [frame] sliceskept([]Vertex) && (fresh(result) || len(result) == 0)
 //@   assigns  []Vertex
-//@   loop 1 invariant sliceskept([]Vertex) && (fresh(result) || len(result) == 0) && soff(result) == 0
+//@   loop 1 invariant sliceskept([]Vertex) && (fresh(result) || result == nil) && soff(result) == 0
 //@   loop 1 invariant imp(len(result) > 0, result[0] == target) && imp(len(result) == 0, current == target)
 //@   loop 1 invariant forall(i, int, imp(0 <= i && i < len(result), result[i] != nil))
 //@   loop 1 invariant forall(i, int, imp(0 <= i && i < len(result)-1, result[i+1] == edgeTo[hc(result[i])]))
